@@ -34,6 +34,67 @@ func setMemLimit(mb int) {
 	_ = syscall.Setrlimit(syscall.RLIMIT_AS, &lim)
 }
 
+// raceDir is where workers (and their children) write race detector reports.
+var raceDir string
+
+// RaceDir is exported for checks that spawn children of their own.
+func RaceDir() string { return os.Getenv("VERIF_RACE_DIR") }
+
+var raceFrame = regexp.MustCompile(`^\s+(github\.com/gmrtd/gmrtd/[^\s(]+(?:\(\*?[A-Za-z0-9_]+\))?[^\s(]*)\(`)
+var anyFrame = regexp.MustCompile(`^\s+([A-Za-z0-9_./\-]+(?:\(\*?[A-Za-z0-9_]+\))?[^\s(]*)\(`)
+
+// collectRaces parses the race detector logs and returns one violation per distinct
+// pair of innermost gmrtd frames; harnessOnly counts reports without any gmrtd frame.
+func collectRaces(dir string) (viols []Violation, reports int, harnessOnly []string) {
+	files, _ := filepath.Glob(filepath.Join(dir, "race*"))
+	seen := map[string]bool{}
+	for _, f := range files {
+		b, err := os.ReadFile(f)
+		if err != nil {
+			continue
+		}
+		blocks := strings.Split(string(b), "WARNING: DATA RACE")
+		for _, blk := range blocks[1:] {
+			reports++
+			// sections are separated by blank lines; the first two are the two accesses
+			secs := strings.Split(blk, "\n\n")
+			var frames []string
+			for i := 0; i < len(secs) && i < 2; i++ {
+				fr := ""
+				for _, line := range strings.Split(secs[i], "\n") {
+					if m := raceFrame.FindStringSubmatch(line); m != nil {
+						fr = m[1]
+						break
+					}
+				}
+				frames = append(frames, fr)
+			}
+			for len(frames) < 2 {
+				frames = append(frames, "")
+			}
+			if frames[0] == "" && frames[1] == "" {
+				// is there a gmrtd frame anywhere in the report (e.g. deeper in a stack)?
+				if !strings.Contains(blk, "github.com/gmrtd/gmrtd/") {
+					harnessOnly = append(harnessOnly, tail(blk, 1500))
+					continue
+				}
+			}
+			sort.Strings(frames)
+			key := "race:" + strings.TrimPrefix(frames[0], "github.com/gmrtd/gmrtd/") + "|" + strings.TrimPrefix(frames[1], "github.com/gmrtd/gmrtd/")
+			if seen[key] {
+				continue
+			}
+			seen[key] = true
+			head := blk
+			if len(head) > 3000 {
+				head = head[:3000]
+			}
+			viols = append(viols, Violation{Key: key, What: "data race reported by the Go race detector", CaseIdx: -1, Case: "race-detector", Detail: map[string]any{"report": head}})
+		}
+	}
+	return
+}
+
 type workerRes struct {
 	out      workerOut
 	extra    []Violation
@@ -118,6 +179,9 @@ func runOne(self string, spec *Spec, tier string, seed int64, args []string, lim
 	cmd.Stderr = &stderr
 	cmd.Stdout = &stderr
 	cmd.Env = os.Environ()
+	if spec.Race {
+		cmd.Env = append(cmd.Env, "GORACE=halt_on_error=0 log_path="+filepath.Join(raceDir, "race"))
+	}
 	if err := cmd.Start(); err != nil {
 		return 2, err.Error(), false
 	}
@@ -152,6 +216,11 @@ func RunParent(self string, spec *Spec, tier string, seed int64, replayPath stri
 	os.MkdirAll(work, 0o755)
 	defer os.RemoveAll(work)
 
+	if spec.Race {
+		raceDir = filepath.Join(work, "races")
+		os.MkdirAll(raceDir, 0o755)
+		os.Setenv("VERIF_RACE_DIR", raceDir)
+	}
 	limit := 40 * time.Minute
 	if tier == "thorough" {
 		limit = 8 * time.Hour
@@ -167,6 +236,10 @@ func RunParent(self string, spec *Spec, tier string, seed int64, replayPath stri
 		if err := json.Unmarshal(b, &rf); err != nil {
 			fmt.Fprintln(os.Stderr, err)
 			return 2
+		}
+		if rf.CaseIdx < 0 {
+			// not attributable to one case (race detector report): re-run the whole check
+			return RunParent(self, spec, rf.Tier, rf.Seed, "")
 		}
 		out := filepath.Join(work, "replay.json")
 		code, se, _ := runOne(self, spec, rf.Tier, rf.Seed, []string{"--worker", "0", "--nworkers", "1", "--replay-idx", strconv.FormatInt(rf.CaseIdx, 10), "--out", out, "--log", filepath.Join(work, "replay.log")}, limit)
@@ -273,6 +346,21 @@ func RunParent(self string, spec *Spec, tier string, seed int64, replayPath stri
 		extraInconcl = append(extraInconcl, results[i].inconcl...)
 	}
 	all.Inconcl = append(all.Inconcl, extraInconcl...)
+	raceReports := 0
+	if spec.Race {
+		rv, n, harnessOnly := collectRaces(raceDir)
+		raceReports = n
+		if len(harnessOnly) > 0 {
+			fmt.Fprintf(os.Stderr, "BROKEN-HARNESS %s: %d data race report(s) without any gmrtd frame:\n%s\n", spec.ID, len(harnessOnly), harnessOnly[0])
+			return 2
+		}
+		all.Viols = append(all.Viols, rv...)
+		if all.Counters == nil {
+			all.Counters = map[string]int64{}
+		}
+		all.Counters["race_detector_reports"] = int64(n)
+	}
+	_ = raceReports
 
 	// distinct count
 	hs := map[uint64]struct{}{}
